@@ -38,9 +38,10 @@ struct Driver {
          .b("ca", Acc::sessions(*a).is_connected(b->id())).b("cb", Acc::sessions(*b).is_connected(a->id()));
         e.emit();
     }
+    long hpow = 0;
     Config cfg(long rot, std::uint32_t seed) {
         Config c{}; c.identity_seed = seed; c.key_rotation_interval = std::chrono::seconds(rot);
-        c.handshake_pow_difficulty = 0; c.announce_pow_difficulty = 0; c.relay_enabled = false; c.nat_stun_enabled = false;
+        c.handshake_pow_difficulty = static_cast<std::uint8_t>(hpow); c.announce_pow_difficulty = 0; c.relay_enabled = false; c.nat_stun_enabled = false;
         c.cleanup_interval = std::chrono::seconds(100000); c.handshake_cooldown = std::chrono::seconds(0);
         return c;
     }
@@ -53,6 +54,7 @@ struct Driver {
     void run(const ev::Cmd& c) {
         if (c.op == "reset") {
             teardown(); keys.clear(); got_a = 0; got_b = 0;
+            hpow = c.i("hpow", 0);
             vclock::set_ns(0);
             a = std::make_unique<Node>(ev::id32(1, 0xA0), cfg(c.i("ia", 5), 0x1111u + c.i("seed", 0)));
             b = std::make_unique<Node>(ev::id32(2, 0xA0), cfg(c.i("ib", 5), 0x2222u + c.i("seed", 0)));
@@ -82,6 +84,16 @@ struct Driver {
             bool delivered = false;
             for (int i = 0; i < 300 && sent; ++i) { if ((from_a ? got_b.load() : got_a.load()) > before) { delivered = true; break; } usleep(1000); }
             ev::Ev e("send"); e.s("from", c.s("from")).b("sent", sent).b("delivered", delivered); fin(e);
+        } else if (c.op == "intrude") {
+            // somebody else offers node n a handshake under the PEER's id: a valid but different public value and work that does not
+            // verify.  It is refused (C20); the key of the open session must stay what both ends agreed on
+            Node& n = c.s("n") == "a" ? *a : *b;
+            Node& peer = c.s("n") == "a" ? *b : *a;
+            std::uint32_t other = peer.public_identity() ^ 0x5A5Au;
+            if (other < 2) other = 12345u;
+            // (only meaningful when handshakes need work: with difficulty 0 every nonce verifies and the offer would be a valid one)
+            bool accepted = hpow > 0 && n.perform_handshake(peer.id(), other, 0xBAD0BAD0BAD0ull + static_cast<std::uint64_t>(c.i("k", 0)));
+            ev::Ev e("intrude"); e.s("n", c.s("n")).b("accepted", accepted); fin(e);
         } else { std::fprintf(stderr, "keyrot: unknown op %s\n", c.op.c_str()); std::exit(2); }
     }
 };
